@@ -126,7 +126,8 @@ def query_op(s, rng, slot, with_write=True):
         s.add("TAGS", slot)
     elif t == 10:
         s.mkdir(b"/out")
-        s.add("W", slot, h(b"/out"), h(b"w.conf"))
+        # (sometimes with an empty directory name: that write is refused, and like every other failing query it leaves the object alone)
+        s.add("W", slot, h(b"/out" if rng.random() < 0.75 else b""), h(b"w.conf"))
     else:
         # the object as an input of a merge: with itself, as the base and as the override of another object
         r = rng.randrange(3)
@@ -165,12 +166,23 @@ def readonly_scenario(sid, rng, nset, nq):
     for _ in range(nset):
         set_op(s, rng, 0)
     s.mkdir(b"/o1")
-    s.add("RAW", 0); s.add("RAWL", 0); s.add("DUMPX", 0); s.add("W", 0, h(b"/o1"), h(b"a"))
+    # what later queries return includes what a later merge with the object returns: a fixed other object is merged with it
+    # (as the base and as the override) before and after the calls
+    s.file(b"/probe.conf", b"p=1\n[P]\nq=2\n")
+    s.add("RF", 7, h(b"/probe.conf"), h(b"="), h(b"#"))
+
+    def dump(name):
+        s.add("RAW", 0); s.add("RAWL", 0); s.add("DUMPX", 0)
+        for a, b in ((7, 0), (0, 7)):
+            s.add("M", 6, a, b); s.add("RAW", 6); s.add("FREE", 6)
+        s.add("W", 0, h(b"/o1"), h(name))
+    dump(b"a")
     first = len(s.lines)
     for _ in range(nq):
         query_op(s, rng, 0)
     last = len(s.lines)
-    s.add("RAW", 0); s.add("RAWL", 0); s.add("DUMPX", 0); s.add("W", 0, h(b"/o1"), h(b"b"))
+    dump(b"b")
+    s.add("FREE", 7)
     s.add("FREE", 0)
     s.meta = {"start": kind, "sets": nset, "queries": nq, "q_first": first, "q_last": last}
     return s
